@@ -42,6 +42,10 @@ fn main() {
         println!("ticks: {}", out.ticks);
         return;
     }
+    if cmd == "c12-dist" {
+        props::c12::distribution();
+        return;
+    }
     if cmd == "c05-nest" {
         // exploration helper: parse one nesting-family text on a 16 MiB stack
         let k: usize = args[2].parse().unwrap();
